@@ -362,7 +362,9 @@ func c01hostileReplies(c *evid.Ctx, r *gen.Rand, cf c01cfg, i int, alloc *gen.Ad
 			v := string(r.Bytes(10))
 			getput.Put(ctx, sha1Of(benc.Encode(v)), n.S, nil, func(seq int64) bep44.Put { return bep44.Put{V: v, Seq: seq} })
 		case "ping":
-			n.S.Ping(start[0])
+			for k := 0; k < 6; k++ {
+				n.S.Ping(start[k%len(start)])
+			}
 		case "findnode":
 			n.S.FindNode(dht.NewAddr(start[0]), krpcInt(r.ID()), dht.QueryRateLimiting{})
 		case "getpeers":
